@@ -165,6 +165,82 @@ def check_finish_handshake(ctx, wf) -> None:
                "would find a component already in a final state)", construct="controllerState = finalState <- not RUNNING")
 
 
+HOPS = {"observe_on", "delay", "delay_with_mapper", "debounce", "throttle_first", "throttle_with_timeout", "throttle_with_mapper",
+        "sample", "buffer", "buffer_with_time", "buffer_with_count", "buffer_with_time_or_count", "window", "window_with_time",
+        "delay_subscription", "timeout"}
+
+
+def check_veto_at_delivery(ctx, ctl) -> None:
+    """R10: typestate of the operator list of the postMortemCheck subscriptions: [.. hop ..]* veto [no hop]*"""
+    rule = "C02.R10-stop-veto-at-delivery"
+    pm = ctl.func("Controller.postMortemCheck")
+
+    def targets_postmortem(fn: ast.AST, e: ast.AST, depth: int = 0) -> bool:
+        if e is None or depth > 5:
+            return False
+        if isinstance(e, ast.Lambda):
+            return any(isinstance(c, ast.Call) and last_attr(c) == "postMortemCheck" for c in ast.walk(e.body))
+        if isinstance(e, ast.Attribute):
+            return e.attr == "postMortemCheck"
+        if isinstance(e, ast.Call):
+            return any(targets_postmortem(fn, a, depth + 1) for a in e.args)
+        if isinstance(e, ast.Name):
+            return any(targets_postmortem(fn, v, depth + 1) for v in match.assigned_value(fn, e.id))
+        return False
+
+    def is_veto(op_call: ast.AST) -> bool:
+        return isinstance(op_call, ast.Call) and last_attr(op_call) == "filter" and any(
+            isinstance(x, ast.Attribute) and x.attr == "finishCalled" for x in ast.walk(op_call))
+
+    # does postMortemCheck itself refuse a component whose finish() was called?  (then the position of the filter is immaterial)
+    cfg = CFG(pm)
+    fc_tests = match.test_nodes(cfg, lambda t: ("F" if isinstance(t, ast.Attribute) and t.attr == "finishCalled" else
+                                                "T" if isinstance(t, ast.UnaryOp) and isinstance(t.operand, ast.Attribute) and t.operand.attr == "finishCalled" else
+                                                ("T" if isinstance(match.compare_parts(t)[1], (ast.Is, ast.Eq)) == (match.compare_parts(t)[2].value is False) else "F")
+                                                if (match.compare_parts(t) and isinstance(match.compare_parts(t)[0], ast.Attribute)
+                                                    and match.compare_parts(t)[0].attr == "finishCalled"
+                                                    and isinstance(match.compare_parts(t)[2], ast.Constant)
+                                                    and isinstance(match.compare_parts(t)[2].value, bool)) else None))
+    acts = [n for n in cfg.nodes if n.ast is not None and n.kind in ("stmt", "test") and any(
+        last_attr(c) in ("finish", "_restartComponent", "TransitionComponentToFinalState") or (call_name(c) or "").endswith("TransitionComponentToFinalState")
+        for c in own_calls(n.ast))]
+    self_guarded = bool(fc_tests) and bool(acts) and all(match.only_via_edges(cfg, a, fc_tests) for a in acts)
+
+    n_subs = 0
+    for q, fn in ctl.functions.items():
+        for c in source.calls_in(fn, include_nested=False):
+            if last_attr(c) != "subscribe":
+                continue
+            on_next = next((k.value for k in c.keywords if k.arg == "on_next"), c.args[0] if c.args else None)
+            if not targets_postmortem(fn, on_next):
+                continue
+            n_subs += 1
+            ctx.analysed(fn)
+            ops: List[ast.AST] = []
+            recv = c.func.value
+            chain = []
+            while isinstance(recv, ast.Call) and last_attr(recv) == "pipe":
+                chain.append(recv)
+                recv = recv.func.value
+            for pc in reversed(chain):
+                ops.extend(pc.args)
+            vetoes = [i for i, o in enumerate(ops) if is_veto(o)]
+            hops_after = [o for i, o in enumerate(ops) if vetoes and i > vetoes[-1] and last_attr(o) in HOPS] if vetoes else []
+            ok = self_guarded or (bool(vetoes) and not hops_after)
+            ctx.ob(rule, c, ok,
+                   ("postMortemCheck refuses components whose finish() was called" if self_guarded else
+                    "finishCalled is tested after the notification has reached the controller's scheduler (operators: %s)"
+                    % ", ".join(last_attr(o) or "?" for o in ops)) if ok else
+                   ("the POSTMORTEM notification is %s: a notification emitted just before _stopComponents() stops the component (natural, "
+                    "recoverable exit while another component fails the stage) waits in the controller pool, is delivered after "
+                    "finish(SHUTDOWN) and finishedCheck, and postMortemCheck then calls finish(FAILED): the component changes state after "
+                    "the stage loop has terminated, to a state no rule gives it"
+                    % ("queued by %s after finishCalled was tested" % (last_attr(hops_after[0])) if vetoes else
+                       "delivered to postMortemCheck without testing finishCalled")),
+                   construct="%s: notifyPostMortem -> [%s] -> postMortemCheck" % (q, ", ".join(last_attr(o) or "?" for o in ops)))
+    ctx.floor(rule, n_subs, 2, "subscriptions that deliver to postMortemCheck")
+
+
 def run(ctx) -> None:
     ctx.explanation = (
         "Per-path analysis (statement CFG incl. handlers and finally copies) of the controller callbacks: exactly one "
@@ -190,6 +266,10 @@ def run(ctx) -> None:
         ("C02.R9-decide-with-complete-information", "_schedule disposes of a component (ready or fake-finished with a final state) only on "
                                                     "the satisfied side of _input_dependencies_satisfied: the verdict is then a function "
                                                     "of all producers' final states, not of the order in which they were observed"),
+        ("C02.R10-stop-veto-at-delivery", "every subscription that delivers POSTMORTEM notifications to postMortemCheck tests "
+                                          "finishCalled at delivery time: the veto filter follows every operator that moves the "
+                                          "notification to another scheduler/queue (or postMortemCheck re-tests it itself), so a "
+                                          "notification queued before the stage was stopped cannot change a stopped component"),
         ("C02.R7-shutdown-table", "aggregating consumer shuts down on any non-replicated SHUTDOWN input or when all replicated inputs are SHUTDOWN"),
     ]:
         ctx.rule(rid, text)
@@ -457,6 +537,7 @@ def run(ctx) -> None:
 
     # ------------------------------------------------ R8
     check_finish_handshake(ctx, wf)
+    check_veto_at_delivery(ctx, ctl)
 
     # ------------------------------------------------ R6
     runf = ctl.func("Controller.run")
